@@ -4,7 +4,7 @@ func init() {
 	prop("C14",
 		"(D1 fork.chain) every fork-epoch if-chain (Spec.ForkVersion, ForkDecoder.ForkDigest) walks the forks in registry order, without gaps, to the last fork, and each branch yields the item of the fork active in that interval; (D2 fork.registry) NewForkDecoder, BlockAllocator, EnvelopeToSignedBeaconBlock, UpgradeMaybe and every UpgradeToX name the same fork for the same slot (digest<-version, digest->block type, body type->signed block type, pre-state type->fork epoch->upgrade function, Fork{previous,current,epoch} written by the upgrade).",
 		"that a block signed under another fork version fails BLS verification (cryptographic, trusted to the BLS library); equality of envelope and block roots for all values.",
-		"fork.chain", "fork.registry")
+		"fork.chain", "fork.registry", "config.values", "bls.verify@common.BeaconBlockEnvelope", "lit.copy")
 
 	prop("C04",
 		"(ssz.fields) the five hand-written field lists of every SSZ container agree with one another, list every struct field once, and agree on spec.Wrap; (ssz.coll) every collection type uses the same kind, bound and element in Deserialize and HashTreeRoot; (ssz.size) FixedLength/ByteLength equal the structural size computed symbolically in the spec constants, 0 exactly for variable-size types, and follow the canonical list formulas; (ssz.elemsize) element-size arguments and FixedLenContainer use match the element's/fields' fixedness; (ssz.descriptor) struct form equals the view-form schema recursively. Because limits are compared as polynomials over spec constants, agreement holds for every configuration, not only mainnet/minimal.",
@@ -43,4 +43,41 @@ func init() {
 		"(map.init) every map field that a pool method index-assigns is allocated by the constructor; (nil.maplookup) pointers from map lookups are nil/ok-tested before dereference; (lock.held) pool methods hold the pool lock around index access.",
 		"that returned items are exactly what was added over histories; aggregate OR-ing of participants; pruning exactness.",
 		"map.init@pool.", "nil.maplookup@pool.", "lock.held@pool.")
+
+	prop("C01",
+		"(pipe.stages) each fork's ProcessBlock runs exactly the spec's sub-transitions for that fork, in that fork's variant, on every success path, with non-commuting stages in spec order; (slots.order) StateTransition verifies the proposer signature before and the state root after ProcessBlock; (fork.settings) fork-dependent penalties/shares read the fork's own preset fields; (limits.first) per-block operation limits equal the SSZ limits; (exitqueue.reset) exit-queue computation resets its churn count; (engine.verdict) the payload header is stored only after the engine approved; (err.flow) no error on the block path is dropped (a dropped error = a rejected block accepted); (args.order) no permuted same-typed arguments; (view.elem/view.index) every state field the pipeline touches is addressed and typed correctly; (cache.deposit) deposits keep the pubkey cache in step.",
+		"any arithmetic (rewards, penalties, churn values, withdrawal sweep), comparison operators inside each check, and equality of the post-state with the Python spec on reachable states.",
+		"pipe.stages", "slots.order", "fork.settings", "limits.first", "exitqueue.reset", "engine.verdict", "err.flow", "args.order", "view.elem", "view.index", "cache.deposit")
+	prop("C02",
+		"(slots.order) the slot loop runs ProcessSlot, ProcessEpoch at epoch ends, SetSlot, RotateEpochs, UpgradeMaybe in that order once per slot; (pipe.stages) each fork's ProcessEpoch runs exactly the spec's epoch sub-transitions in the fork's variant with live-state dependencies ordered; (exitqueue.reset) the batched exit queue of registry updates counts churn per epoch; (fork.registry) upgrades trigger at their own fork epoch, in order, and write the right Fork; (view.build)/(lit.copy) upgrades carry every pre-state field into the same-named post field; (epc.upkeep) sync committees are loaded on the altair upgrade and rotated on the next-epoch period test; (ctx.poll)/(err.flow) failures surface.",
+		"justification/finality and reward arithmetic, hysteresis thresholds, leak dynamics, churn values.",
+		"slots.order", "pipe.stages", "exitqueue.reset", "fork.registry", "view.build", "lit.copy", "epc.upkeep", "ctx.poll", "err.flow")
+	prop("C03",
+		"(err.flow) every error produced on the transition path is propagated or ends the path with a refusal; values are not dereferenced before their error is examined; (bls.verify) every signature check covers the whole signing root, under the spec's domain for that message type and fork-version class, and a false result refuses; (limits.first) operation counts are bounded; (merkle.bound) the deposit proof is bounded, checked, and precedes the index increment; (slots.order) target-slot guard, signature and state-root checks; (nil.maplookup/index.guard/map.init) the three exact panic shapes; (ssz.coll) decode limits are the type's limits; (fork.chain) the version used for the envelope signature is the slot's.",
+		"that each individual comparison is the spec's comparison (< vs <=, which field): a semantic fact about a boolean expression, left to other technique families; explicit panic() calls guarded by invariants are listed, not judged.",
+		"err.flow", "bls.verify", "limits.first", "merkle.bound", "slots.order", "nil.maplookup", "index.guard", "map.init", "ssz.coll", "fork.chain")
+	prop("C06",
+		"(shuffle.perm) permutation clause: the whole-list routine writes its input only through two-element swaps of the list's own elements, so its output is a permutation of the input for every seed, size and round count; wiring clause: forward/inverse entry points differ only in the direction flag, the round counter runs 0..rounds-1 forwards and rounds-1..0 backwards with rounds == 0 short-circuited, the two mirrored pair loops are identical, and the epoch shuffling is an element-wise copy un-shuffled with SHUFFLE_ROUND_COUNT.",
+		"that the permutation is the spec's swap-or-not permutation (pivot, hash-bit selection at 256/8 boundaries) and that forward and inverse are mutually inverse for all sizes: both are numeric facts about hash-derived bits.",
+		"shuffle.perm")
+	prop("C07",
+		"(committee.partition) committees are consecutive reslices [n*k/count, n*(k+1)/count) of one permutation over the full slot x index product, hence a partition of the active set; committee count follows the spec formula with clamp and floor; proposer and sync-committee sampling share the spec's acceptance test and permuted-index call; (seed.domain) each consumer seeds with the spec's domain; (shuffle.perm) the sliced list is a permutation of the active indices.",
+		"equality of the assignment with the spec's for given randao/balances (numeric).",
+		"committee.partition", "seed.domain", "shuffle.perm")
+	prop("C08",
+		"(epc.coverage) every field the from-scratch constructor computes is refreshed by RotateEpochs, and the genesis context computes the phase0 subset; (epc.upkeep) rotation shifts previous<-current<-next, computes next for current+1, sync committees follow the period test and are loaded on the altair upgrade; (slots.order) rotation happens after SetSlot at epoch ends; (cache.deposit) the pubkey cache grows with each new validator and the returned handle is kept; (epc.shared) shared sub-structures are never written after construction, so a cloned context is independent.",
+		"value equality of the incremental and the from-scratch context along histories.",
+		"epc.coverage", "epc.upkeep", "epc.shared", "slots.order", "cache.deposit")
+	prop("C12",
+		"(gossip.mark) seen-caches are marked only where nothing but ACCEPT can follow, and every ACCEPT passes the mark of each key the validator consults; (gossip.verdict) every refusal carries the verdict class of its governing outcome (timing/availability => IGNORE, validity => REJECT), no refusal branch accepts, ACCEPT is the final unconditional return; (bls.verify) the ten verification sites the validators reach check the whole root under the spec's domain; (err.flow) a swallowed error cannot fall through to ACCEPT; (args.order).",
+		"completeness of each validator against the p2p spec's full condition list beyond the tabled outcomes; exact clock-window arithmetic.",
+		"gossip.mark", "gossip.verdict", "bls.verify", "err.flow@gossipval.|phase0.|altair.|common.", "args.order@gossipval.")
+	prop("C13",
+		"(genesis.init) GenesisFromEth1 performs the spec's initialisation steps with the spec's arguments on every success path, updates the deposit-tree root before each deposit, rounds/caps effective balances and activates at MAX_EFFECTIVE_BALANCE, takes the validators root after activation, loads the context, and only the kick-start helpers skip signatures/proofs; IsValidGenesisState compares with the two spec constants; (cache.deposit)(merkle.bound)(bls.verify)(err.flow) the shared ProcessDeposit obligations incl. the three spec-mandated forgiven errors; (epc.coverage) the genesis context is complete; (config.values) genesis constants are the spec's.",
+		"field-for-field equality with the spec's genesis state for all deposit lists.",
+		"genesis.init", "cache.deposit", "merkle.bound", "bls.verify@phase0.ProcessDeposit", "err.flow@phase0.", "epc.coverage", "config.values")
+	prop("C18",
+		"(ctx.poll) each of the context polls is tested and its error returned on that branch; (err.flow) every frame between a poll / engine call and ProcessSlots/StateTransition propagates the error; (engine.verdict) each engine answer (error, invalid) becomes an error before the payload header is stored, in the spec's call order, and the engine is shown the block's payload, the versioned hashes of its commitments in order and the latest header's parent root; (slots.order) the slot loop returns each stage's error.",
+		"'identical to an undisturbed run when nothing fails' beyond the structural fact that polls have no side effects (ctx is used only for Err() and forwarding - advisory list in evidence).",
+		"ctx.poll", "err.flow", "engine.verdict", "slots.order")
 }
